@@ -1413,6 +1413,9 @@ class ListNode(SyntaxNodeBase):
                 if try_expansion(shortcut, new_vals[i]):
                     try_reverse_expansion(shortcut, i, last_end)
                 else:
+                    # the shortcut is dropped: what stood behind it (blanks, line breaks, comments)
+                    # stays behind the value that takes its place
+                    self._inherit_padding(new_vals[i], shortcut)
                     shortcut = None
                     # the value may have become a jump, which no value node can print
                     check_for_orphan_jump(new_vals[i])
@@ -1425,6 +1428,25 @@ class ListNode(SyntaxNodeBase):
                         check_for_orphan_jump(new_vals[i])
                 else:
                     check_for_orphan_jump(new_vals[i])
+
+    @staticmethod
+    def _inherit_padding(node, shortcut):
+        """
+        Hands the end padding of a shortcut that is no longer written to the value node written in its place.
+
+        :param node: the value node that stays.
+        :type node: ValueNode
+        :param shortcut: the shortcut that is dropped.
+        :type shortcut: ShortcutNode
+        """
+        padding = shortcut.end_padding
+        if not padding:
+            return
+        if node.padding is None:
+            node.padding = padding
+        elif len(list(padding.comments)) > 0 and padding is not node.padding:
+            node.padding += padding
+        shortcut._end_pad = None
 
     def append(self, val, from_parsing=False):
         """
